@@ -253,6 +253,48 @@ def run_one(rec, G, tag, structural, rounds, named=False):
     b.cleanup()
 
 
+def run_chains(rec):
+    """Classes defined by a derived grammar only (the base has none), by the base only, and by both:
+    instances parsed through either module carry finalised spans."""
+    W = ('re', '[a-z]+', False)
+    box = lambda name, o, c: ('class', name, None, [('field', 'o', ('str', o)), ('field', 'w', ('star', ('ref', 'Item'))), ('field', 'c', ('str', c))])
+    variants = {
+        'derived-only': ([], [box('Box', '[', ']'), ('rule', 'Item', None, ('alt', [('ref', 'Box'), ('super', 'Item')]))]),
+        'base-only': ([box('Par', '(', ')'), ('rule', 'Item', None, ('alt', [('ref', 'Par'), ('ref', 'Word')]))],
+                      [('rule', 'Word', None, ('re', '[a-z0-9]+', False))]),
+        'both': ([box('Par', '(', ')'), ('rule', 'Item', None, ('alt', [('ref', 'Par'), ('ref', 'Word')]))],
+                 [box('Box', '[', ']'), ('rule', 'Item', None, ('alt', [('ref', 'Box'), ('super', 'Item')]))]),
+    }
+    for tag, (base_extra, derived) in sorted(variants.items()):
+        for ign in (True, False):
+            a, b_ = diff.unique_name('vt_c10a'), diff.unique_name('vt_c10b')
+            base = [('rule', 'start', None, ('star', ('ref', 'Item'))), ('rule', 'Word', None, W)]
+            if not any(s[1] == 'Item' for s in base_extra):
+                base.append(('rule', 'Item', None, ('ref', 'Word')))
+            base += base_extra
+            if ign:
+                base.append(('ignore', ('re', '[ \\n]+', False)))
+            GA = dict(name=a, extends=None, stmts=base)
+            GB = dict(name=b_, extends=a, stmts=derived)
+            b = diff.build(rec, [GA, GB])
+            if b is None:
+                continue
+            rec.count('chain_descriptions')
+            texts = ['', 'ab', '[ab]', '[a [b] c]', '(a)', '(a [b (c)])', ' [a]\n[b]', '[a', 'a [ b ] c', '[[]]', '\n\n [ x ]']
+            for lvl, g in enumerate(b.modules):
+                sub = diff.Built()
+                sub.grammars, sub.descs, sub.modules, sub.g, sub.chain, sub.names = b.grammars[:lvl + 1], b.descs[:lvl + 1], b.modules[:lvl + 1], g, b.chain[:lvl + 1], []
+                for text in texts:
+                    for entry in (None, 'Item'):
+                        for pos in (0, 1):
+                            if pos > len(text):
+                                continue
+                            r = diff.compare(rec, sub, text, entry, pos, True, monitors=('value', 'span'), extra_case=dict(tag='chain-' + tag, level=lvl))
+                            if r is not None and r[0][0] in ('value', 'partial') and count_spanned(r[0][1]) >= 1:
+                                rec.nontrivial((tag, ign, lvl, entry, text, pos))
+            b.cleanup()
+
+
 def metaparser_structure(rec, quick):
     r = observe.compile_grammar(corpus.metagrammar_text())
     if r[0] != 'ok':
@@ -291,6 +333,8 @@ def run_shard(rec):
                 rounds=120 if quick else 500, named=(i % 5 == 2))
     if rec.shard == 0:
         metaparser_structure(rec, quick)
+    if rec.shard == 1:
+        run_chains(rec)
 
 
 def replay(rec, rep):
